@@ -68,3 +68,9 @@ package browse
 //@ use casketfile/contracts_verif.go:dispenser_api
 //@ use @verif/specs/stdlib.spec:stdlib
 //@ use @verif/specs/stdlib.spec:casket_api
+
+//@ unit helper_frames frames=on props=C11 nilchecks=on filter=`browse\.isSymlink$`
+//@ // helpers that other units call through an empty contract ("frame-empty, promises nothing"): here each is verified
+//@ // against exactly that contract (safety and an empty frame), so that assumption is a proved fact
+//@ use @verif/specs/stdlib.spec:stdlib
+//@ func isSymlink
